@@ -187,6 +187,9 @@ struct Mid {
 }
 impl Module for Mid {
     fn at_sim_start(&mut self, _: usize) {
+        // plain lookups of relatives (nothing is kept)
+        let _ = current().parent().map(|p| p.path());
+        let _ = current().child("no-such-child").is_err();
         if self.shutdown && SimTime::now() == SimTime::ZERO {
             schedule_in(Message::default().kind(9), Duration::from_secs_f64(1.5));
         }
